@@ -456,6 +456,7 @@ var c13Ops = []c13Op{
 	{name: "RemoveFootnote(lowest id that exists)", kind: "fnrm"},
 	{name: "RemoveEndnote(lowest id that exists)", kind: "enrm"},
 	{name: "RestartNumbering(99) [an id that names no list]", kind: "restart"},
+	{name: "the slices GetAllStyles / GetHeadingStyles returned are emptied by the caller (every slot set to nil)", kind: "scribble-lists"},
 	{name: "work on another document (build, save, reopen, render as template)", kind: "other"},
 	{name: "GenerateTOC(levels 1-9)", kind: "toc"},
 	{name: "AutoGenerateTOC(levels 1-9)", kind: "autotoc"},
@@ -500,6 +501,7 @@ type c13Inst struct {
 	lastNT        bool
 	removedNotes  map[string]bool // "footnote|1": notes the caller removed
 	nrm, nrestart int
+	nscribble     int
 }
 
 func (i *c13Inst) stage() string {
@@ -590,6 +592,8 @@ func (i *c13Inst) Enabled(op int) bool {
 		return i.nrm < 2
 	case "restart":
 		return i.nrestart < 1
+	case "scribble-lists":
+		return i.nscribble < 1
 	case "remove":
 		// only styles no element uses are removed
 		return i.doc.GetStyleManager().StyleExists(o.id) && i.uses[o.id] == 0 && !i.bodyUses(o.id)
@@ -831,6 +835,19 @@ func (i *c13Inst) Apply(op int) (string, []rep.Violation) {
 					break
 				}
 			}
+		case "scribble-lists":
+			// what an accessor hands out is the caller's to use: filtering it in place must not reach the registry
+			sm := i.doc.GetStyleManager()
+			all := sm.GetAllStyles()
+			for k := range all {
+				all[k] = nil
+			}
+			hs := sm.GetHeadingStyles()
+			for k := range hs {
+				hs[k] = nil
+			}
+			i.nscribble++
+			i.lastNT = true
 		case "restart":
 			i.doc.RestartNumbering("99")
 			i.nrestart++
@@ -895,6 +912,10 @@ func (i *c13Inst) Key() string {
 	// registry: ids with the followed part of their definition
 	var reg []string
 	for _, s := range i.doc.GetStyleManager().GetAllStyles() {
+		if s == nil {
+			reg = append(reg, "<nil entry handed out by GetAllStyles>")
+			continue
+		}
 		reg = append(reg, s.StyleID+":"+c13FPOf(s).String())
 	}
 	sort.Strings(reg)
@@ -909,7 +930,7 @@ func (i *c13Inst) Key() string {
 		rm = append(rm, k)
 	}
 	sort.Strings(rm)
-	fmt.Fprintf(&b, "|api%v|uses X%d T%d|rm%v restart%d|", api, i.uses["X"], i.uses["T"], rm, i.nrestart)
+	fmt.Fprintf(&b, "|api%v|uses X%d T%d|rm%v restart%d scr%d|", api, i.uses["X"], i.uses["T"], rm, i.nrestart, i.nscribble)
 	// the body as the library would write it
 	var body []byte
 	if p := guard(func() { body, _ = xml.Marshal(i.doc.Body) }); p != "" {
